@@ -269,6 +269,9 @@ def configs(md):
                             out.append((flat, linear, split, plan, 1, pi, gi))
                         if not linear and plan[0] != "none":
                             out.append((flat, linear, split, plan, 1, pi, 0, "reused"))
+                        if not linear:
+                            # the other documented non-linear solver
+                            out.append((flat, linear, split, plan, 1, pi, 0, "scipy_root"))
                     if plan[0] == "none" and len(md["params"]) > 1:
                         out.append((flat, linear, split, plan, 3, 0, 0))
                     if plan[0] == "none" and len(md["params"]) > 2:
@@ -360,6 +363,9 @@ def check_config(md, cfg, res, ctx, cache):
         kw["plan"] = plan
     if split is not None:
         kw["split_into_blocks"] = split
+    if history == "scipy_root":
+        kw["solver"] = "scipy_root"
+        res.count("scipy_root_attempts")
     try:
         with contextlib.redirect_stdout(io.StringIO()):
             info = m.steady(return_info=True, unpack_singleton=False, **kw)
@@ -375,6 +381,8 @@ def check_config(md, cfg, res, ctx, cache):
         return
     res.count("solved")
     res.count("solved_" + name)
+    if history == "scipy_root":
+        res.count("solved_scipy_root")
     res.nt((name,) + tuple(map(str, cfg)))
     try:
         sols = read(m, nvar)
@@ -486,7 +494,7 @@ def run(ctx, total, info):
     engine.run_shards(__name__, "shard", shards, ctx, total)
     c = total.counters
     info["exhaustive"] = True
-    info["floors"] = {"solved": (c.get("solved", 0), 250), "rough_first_pass_completed": (c.get("rough_first_pass_completed", 0), 40), "multi_block_structures": (len(total.classes.get("num_blocks", ())), 5)}
+    info["floors"] = {"solved": (c.get("solved", 0), 250), "rough_first_pass_completed": (c.get("rough_first_pass_completed", 0), 40), "solved_scipy_root": (c.get("solved_scipy_root", 0), 100), "multi_block_structures": (len(total.classes.get("num_blocks", ())), 5)}
     for md in models(ctx.tier):
         info["floors"]["solved_" + md["name"]] = (c.get("solved_" + md["name"], 0), 6)
 
